@@ -73,6 +73,9 @@ def gen_set_op(r, item, copy_on=False, ops=OPS):
     elif k == "copy":
         op["how"] = r.choice(["copy", "deepcopy", "pickle"])
         op["proto"] = r.choice([2, 3, 4, 5])
+    if ("vs" in op or "args" in op) and r.random() < 0.3:
+        # any iterable is as good as a list (a generator can be walked only once)
+        op["as"] = r.choice(["gen", "gen", "tuple", "iter", "map"])
     return op, nval
 
 
@@ -84,7 +87,8 @@ def sut_set_apply(ts, op):
         vals = [raw(s) for s in specs]
         if ai is not None and op.get("iter_raise_arg") == ai:
             return RaisingIter(vals, op["iter_raise_at"], op["iter_exc"])
-        return vals
+        from .c05 import shape_arg
+        return shape_arg(vals, op.get("as"))
     if k == "add":
         return sut(ts.add, raw(op["v"]))
     if k == "discard":
